@@ -93,7 +93,7 @@ type Walker struct {
 	aborted   string
 	abortKind string
 	loopCond  bool
-	maps      []*Term // maps allocated on this path
+	maps      []*Term                  // maps allocated on this path
 	Covered   map[*ssa.BasicBlock]bool // blocks entered on any path of the current Walk
 	Exploded  bool
 	Finite    bool // exact region splitting for compound expressions of one small-domain leaf (finite.go)
